@@ -236,6 +236,7 @@ func (vc *VC) finish() {
 	// cover: the exit is reachable under the precondition
 	cv := vc.oblige("cover", Rexit, "false", vc.fn.Pos(), "cover: some return is reachable under the precondition")
 	cv.Cover = true
+	vc.frameObligations(Rexit, mem, old)
 	if vc.con == nil {
 		return
 	}
